@@ -48,8 +48,8 @@ structure ParamDef where
   name : String
   default : DVal
   instantiate : Bool
-  sel : SelKind := .notSel
   bounds : Option (Int × Int)
+  sel : SelKind := .notSel
   deriving DecidableEq, Repr
 
 /-- what a `depends(.., watch=True)` method depends on: an own parameter `p`, or parameter `x` of the
@@ -211,11 +211,10 @@ def World.touchParam (w : World) (o : Nat) (p : String) : World :=
       | some d =>
         match (if d.sel = .notSel then Option.none else w.clsSlot ob.cls p) with
         | Option.none =>
-          w.setObj o fun ob => { ob with pcopies := insert ob.pcopies p { bounds := d.bounds, constant := false } }
+          w.setObj o fun ob => { ob with pcopies := insert ob.pcopies p ⟨d.bounds, false, Option.none⟩ }
         | some (co, cn) =>
           ({ w with cells := w.cells ++ [deref w.cells co, deref w.cells cn] }).setObj o fun ob =>
-            { ob with pcopies := insert ob.pcopies p
-                { bounds := d.bounds, constant := false, slots := some (w.cells.length, w.cells.length + 1) } }
+            { ob with pcopies := insert ob.pcopies p ⟨d.bounds, false, some (w.cells.length, w.cells.length + 1)⟩ }
 
 /-- `obj.param._watch(..)`: append to `watchers[name]['value']` for every name -/
 def World.addWatcher (w : World) (wt : Watcher) : World :=
